@@ -445,7 +445,7 @@ func runC12OnceLog(t *testing.T, root string, p c12Params, n int64) (ops int64, 
 // inside Store's initial recursive delete of the already published entry (every operation up to
 // and including the crash point is an unlink/rmdir below the published entry's path).
 func c12Finding(p c12Params, cls string, n int64, oplog []string) string {
-	if cls != "partial-hit-after-crash" || !p.Restore || p.Compress || n < 1 || int(n) > len(oplog) {
+	if (cls != "partial-hit-after-crash" && cls != "partial-hit-after-io-error") || !p.Restore || p.Compress || n < 1 || int(n) > len(oplog) {
 		return ""
 	}
 	for _, l := range oplog[:n] {
